@@ -303,6 +303,15 @@ func genParse(c *genCtx) error {
 	if c.want("digits") {
 		setCurrent("parse digit runs")
 		digitRunInputs(c.thorough(), func(d []byte) { writeDoc(po, c.sw, &j, d, nil, c.st) })
+		// string runs: content runs of every length x every byte value / escape / multi-byte rune straddling the end of the run
+		setCurrent("parse string runs")
+		stringRunInputs(c.thorough(), 40, func(t []byte, k int) {
+			writeDoc(po, c.sw, &j, t, nil, c.st)
+			if k%8 <= 1 || k%8 == 7 {
+				writeDoc(po, c.sw, &j, append(append([]byte(`{"k":[1,`), t...), "]}"...), nil, c.st)
+				writeDoc(po, c.sw, &j, append(append([]byte(`[{`), t...), ":0}]"...), nil, c.st)
+			}
+		})
 		// whitespace runs before and after values
 		for k := 0; k <= 17; k++ {
 			ws := bytes.Repeat([]byte(" "), k)
